@@ -274,8 +274,33 @@ func (s *cScene) next(kind byte, move bool) cEvent {
 			p[0][0] = 1 // keep uniqueness of boson frames visible
 		}
 	}
+	edge := c.Exp.EdgePixels
 	if kind == 'B' {
-		p[c.H/2][c.W/2] = 0
+		switch s.r.Draw(5) {
+		case 0:
+			p[edge][edge] = 0 // first interior pixel
+		case 1:
+			p[c.H-1-edge][c.W-1-edge] = 0 // last interior pixel
+		case 2:
+			p[s.r.Range(edge, c.H-1-edge)][c.W-1-edge] = 0 // last interior column
+		case 3:
+			p[c.H-1-edge][s.r.Range(edge, c.W-1-edge)] = 0 // last interior row
+		default:
+			p[c.H/2][c.W/2] = 0
+		}
+	}
+	if edge >= 1 && s.r.Chance(1, 8) {
+		// zero pixels in the border only: the frame is valid
+		switch s.r.Draw(4) {
+		case 0:
+			p[s.r.Draw(edge)][s.r.Draw(c.W)] = 0
+		case 1:
+			p[c.H-1-s.r.Draw(edge)][s.r.Draw(c.W)] = 0
+		case 2:
+			p[s.r.Draw(c.H)][s.r.Draw(edge)] = 0
+		default:
+			p[s.r.Draw(c.H)][c.W-1-s.r.Draw(edge)] = 0
+		}
 	}
 	s.up += uint32(1000 / c.Fps)
 	tel := zz.Tel{TimeOnMs: s.up, LastFFCMs: s.ffc, FrameCount: uint32(s.id), FrameMean: uint16(h >> 32), FPATemp: uint16(27000 + (h>>40)%6000), FPATempFFC: uint16(27000 + (h>>20)%6000), Noise: uint16(h >> 8)}
@@ -407,6 +432,7 @@ type cConnResult struct {
 	Err        error
 	Panic      string
 	ProcTimes  []time.Time // bubble time at the entry of Process, per delivered frame
+	Accepted   []uint32    // processor.CurrentFrame observed at the entry of Process (and once after the connection)
 	Header     *headers.HeaderInfo
 	FilesAfter []string
 }
@@ -516,6 +542,7 @@ func execPlain(sc *cScenario) *cResult {
 				switch label {
 				case "motion/motionprocessor.go:Process:entry":
 					cr.ProcTimes = append(cr.ProcTimes, time.Now())
+					cr.Accepted = append(cr.Accepted, processor.CurrentFrame)
 					time.Sleep(time.Duration(cn.Costs[nProc%len(cn.Costs)]) * time.Millisecond)
 					nProc++
 				case "cmd/thermal-recorder/cptvfilerecorder.go:StartRecording:entry":
@@ -538,6 +565,9 @@ func execPlain(sc *cScenario) *cResult {
 			cameraPlain(cn, b)
 			<-done
 			verifsim.Hook = nil
+			if processor != nil {
+				cr.Accepted = append(cr.Accepted, processor.CurrentFrame)
+			}
 			cr.Header = headerInfo
 			cr.FilesAfter = listTree(outDir)
 			res.Conns = append(res.Conns, cr)
@@ -859,6 +889,17 @@ func checkFile(r *verifsim.Run, cn *cConn, d *cDecoded, exp *refRec, sent map[in
 	r.Count("frames_compared", len(exp.IDs))
 }
 
+func hasZero(p [][]uint16) bool {
+	for _, row := range p {
+		for _, v := range row {
+			if v == 0 {
+				return true
+			}
+		}
+	}
+	return false
+}
+
 func firstOr(v []int) int {
 	if len(v) == 0 {
 		return -1
@@ -950,6 +991,37 @@ func checkE2E(r *verifsim.Run, sc *cScenario, res *cResult) {
 			r.Violate("C14", "C14.close", "no-error", "connection %d ended but handleConn returned nil", ci)
 			return
 		}
+		// C13: classification of every delivered frame (accepted <=> no zero pixel inside the border)
+		k := 0
+		for i := range cn.Ev {
+			e := &cn.Ev[i]
+			if (e.Kind != 'F' && e.Kind != 'B') || k >= nSent || k+1 >= len(cr.Accepted) {
+				continue
+			}
+			accepted := cr.Accepted[k+1] == cr.Accepted[k]+1
+			bad := false
+			for y := c.Exp.EdgePixels; y < c.H-c.Exp.EdgePixels; y++ {
+				for x := c.Exp.EdgePixels; x < c.W-c.Exp.EdgePixels; x++ {
+					if e.Pix[y][x] == 0 {
+						bad = true
+					}
+				}
+			}
+			if accepted == bad {
+				sig := "rejected-good"
+				if accepted {
+					sig = "accepted-bad"
+				}
+				r.Violate("C13", "C13.classify", sig+":"+c.Model, "connection %d frame id %d (%s, edge %d): zero pixel inside the border=%v but the frame was accepted=%v", ci, e.ID, c.Model, c.Exp.EdgePixels, bad, accepted)
+				return
+			}
+			if bad {
+				r.Probe("bad-frame-" + c.Model)
+			} else if hasZero(e.Pix) {
+				r.Probe("border-zero-accepted")
+			}
+			k++
+		}
 		recs, tr := reference(cn, cr.ProcTimes, nSent)
 		_ = tr
 		for _, rc := range recs {
@@ -982,6 +1054,21 @@ func checkE2E(r *verifsim.Run, sc *cScenario, res *cResult) {
 		}
 		dir := filepath.Dir(f)
 		actByDir[dir] = append(actByDir[dir], res.Decoded[f])
+	}
+	// C13: no bad frame in any file
+	badSums := map[uint64]int{}
+	for id, e := range sent {
+		if e.Kind == 'B' {
+			badSums[zz.SumPix(e.Pix)] = id
+		}
+	}
+	for f, d := range res.Decoded {
+		for _, fr := range d.Frames {
+			if id, ok := badSums[zz.SumPix(fr.Pix)]; ok && !fr.Status.BackgroundFrame {
+				r.Violate("C13", "C13.bad-recorded", "file", "bad frame id %d was written to %s", id, f)
+				return
+			}
+		}
 	}
 	for _, dir := range []string{".", "constant-recordings"} {
 		exp := expByDir[dir]
@@ -1021,14 +1108,40 @@ func checkE2E(r *verifsim.Run, sc *cScenario, res *cResult) {
 			r.Violate(prop, rule, fmt.Sprintf("count:%s", dir), "directory %s holds %d finished recordings %v, the settings and the byte stream call for %d %v", dir, len(act), names, len(exp), wants)
 			if dir == "." {
 				r.Violate("C14", "C14.delivery", "files", "directory %s holds %d finished recordings, expected %d", dir, len(act), len(exp))
+				nTest := 0
+				for _, e := range exp {
+					if e.rec.Sink == zz.SinkTest {
+						nTest++
+					}
+				}
+				if nTest > 0 {
+					r.Violate("C17", "C17.files", "output-dir", "the output directory holds %d finished recordings %v; with %d test recordings the requests and the byte stream call for %d %v", len(act), names, nTest, len(exp), wants)
+				}
+			} else {
+				r.Violate("C17", "C17.files", "constant-recordings", "constant-recordings holds %d finished files %v, expected %d %v", len(act), names, len(exp), wants)
 			}
 			return
 		}
 		for i := range exp {
 			before := r.Failed()
+			if exp[i].rec.Sink != zz.SinkMotion && r.Prop == "C17" {
+				r.Map = func(prop, rule, sig string) (string, string, string) {
+					if prop == "C11" && (rule == "C11.frames" || rule == "C11.background") {
+						return "C17", "C17.file-content", zz.SinkName[exp[i].rec.Sink] + ":" + sig
+					}
+					return prop, rule, sig
+				}
+			}
 			checkFile(r, exp[i].cn, act[i], &exp[i].rec, sent, span)
+			r.Map = nil
 			if !before && r.Failed() {
 				return
+			}
+			switch exp[i].rec.Sink {
+			case zz.SinkTest:
+				r.Probe("test-recording-file-checked")
+			case zz.SinkCont:
+				r.Probe("continuous-file-checked")
 			}
 		}
 	}
